@@ -19,7 +19,7 @@ from vplib.simlib import SimRunner, basic_problems, err_class
 
 MANIFEST = dict(
     category="proof",
-    text="Coq theorems on the protocol model M-Sys (coq/theories/sys/Proto.v), for every oracle: failure_local (a process-level error changes only the failed process and the processes that have it in `awaiting`; run queue and parked sets untouched), the error reaches an awaiter unchanged on every hop (check_completed_processes -> Environment -> Worker::notify_result; an awaiter registered after the failure is registered and answered in the same step; a failure of a process that is no longer awaited leaves the former awaiter untouched), Worker::handle_command fails only on a client's ResumeProcess/GetResult misuse and Environment::handle_event never fails on routed process ids. step_errs_only (phase 3), for every state, action and oracle, the complete list of ways a step returns Err: Worker.step only when a ResumeProcess/GetResult command (client calls) is among the handled commands — every other Fault of the model's worker step is BadOracle, i.e. an oracle that describes no possible slice; Environment.step only when a queued event names an unrouted process id; client calls and time never. Global invariants over every schedule and oracle (phase 4, per micro-step): step_never_errs — under the single premise pid_honest_run (a boolean on the schedule: the Send/Await action of every Worker::step's oracle names process ids below next_process_id) no run from init ever fails with an environment error (invariant: every queued event incl. the awaiter of an AwaitAction, the awaiter of every queued QueryAndAwait and every awaiter in awaiters_for_target is routed); step_faults_only_bad_oracle — if in addition the client never calls resume_process, every Fault of the model is BadOracle, i.e. neither Worker::step nor Environment::step returns Err (request_result never fails); errors_originate (no premise) — every error anywhere in a reachable state (process results, awaiting values, ProcessResults/ResultResponse events, UpdateAwaitResults commands, pending_awaits) is the error some time slice of the schedule finished with, hence (single_failure_same_error) when all failing slices fail with the same error every failed process on every worker has exactly that error; with several distinct failures an awaiter keeps the last one written (schedule-dependent), which is why the per-awaiter statement of DESIGN is not an invariant. NOT proved: WorkerErr-freedom under a premise that allows resume_process (only the no-resume form). The same statements are checked on the real code by schedule exploration (failing member at 8 kinds of site incl. out-of-domain builtin calls at boundary magnitudes, a stale failure reaching a former awaiter that is spawning, awaiters before/during/after, no panic / Err from Worker::step and Environment::step). The model is tied to the code by replaying qv_sim traces through the extracted model with the state compared after every scheduler action.",
+    text="Coq theorems on the protocol model M-Sys (coq/theories/sys/Proto.v), for every oracle: failure_local (a process-level error changes only the failed process and the processes that have it in `awaiting`; run queue and parked sets untouched), the error reaches an awaiter unchanged on every hop (check_completed_processes -> Environment -> Worker::notify_result; an awaiter registered after the failure is registered and answered in the same step; a failure of a process that is no longer awaited leaves the former awaiter untouched), Worker::handle_command fails only on a client's ResumeProcess/GetResult misuse and Environment::handle_event never fails on routed process ids. step_errs_only (phase 3), for every state, action and oracle, the complete list of ways a step returns Err: Worker.step only when a ResumeProcess/GetResult command (client calls) is among the handled commands — every other Fault of the model's worker step is BadOracle, i.e. an oracle that describes no possible slice; Environment.step only when a queued event names an unrouted process id; client calls and time never. Global invariants over every schedule and oracle (phase 4, per micro-step): step_never_errs — under the single premise pid_honest_run (a boolean on the schedule: the Send/Await action of every Worker::step's oracle names process ids below next_process_id) no run from init ever fails with an environment error (invariant: every queued event incl. the awaiter of an AwaitAction, the awaiter of every queued QueryAndAwait and every awaiter in awaiters_for_target is routed); step_faults_only_bad_oracle — if in addition the client never calls resume_process, every Fault of the model is BadOracle, i.e. neither Worker::step nor Environment::step returns Err (request_result never fails), and when the client does resume, honestly (resume_honest_run: at the call the process is sleeping on its worker or its StartProcess(sleeping) is queued there and no ResumeProcess for it is queued), likewise (step_faults_only_bad_oracle_resume; a sleeping process stays sleeping under every worker operation but its own resume); errors_originate (no premise) — every error anywhere in a reachable state (process results, awaiting values, ProcessResults/ResultResponse events, UpdateAwaitResults commands, pending_awaits) is the error some time slice of the schedule finished with, hence (single_failure_same_error) when all failing slices fail with the same error every failed process on every worker has exactly that error; with several distinct failures an awaiter keeps the last one written (schedule-dependent), which is why the per-awaiter statement of DESIGN is not an invariant. The same statements are checked on the real code by schedule exploration (failing member at 8 kinds of site incl. out-of-domain builtin calls at boundary magnitudes, a stale failure reaching a former awaiter that is spawning, awaiters before/during/after, no panic / Err from Worker::step and Environment::step). The model is tied to the code by replaying qv_sim traces through the extracted model with the state compared after every scheduler action. During the replay the extracted boolean forms of the oracle premises of the global theorems (pid_honest, await_honest, park_honest, time_honest, resume_honest; sys/ProtoPremises.v) are evaluated on every action of every real trace; a violated premise is a correspondence-broken violation (evidence key premise_checks; a synthetic Send to an unallocated pid is the negative control).",
     design_ref="§4, §5 C15",
     note="Trusted: Coq kernel, extraction (ExtrOcamlBasic), OCaml driver, the simulator and its backend (harness/src/bin/qv_sim), the trace-to-oracle conversion (vplib/simlib.py), the schedule abstraction of DESIGN §4. Debug build (debug assertions are outcomes). Effects/resources and the heap are outside M-Sys (C14, C06).",
     technique="Coq proof on a protocol model + model/code correspondence by trace replay + schedule exploration of the real runtime with implementation-level oracles",
@@ -84,8 +84,8 @@ def run(ctx):
             return kinds
         simlib.replay(ctx, runner, kinds_of)
         return
-    nscen = ctx.n(200, 2000)
-    nsched = ctx.n(50, 500)
+    nscen = ctx.n(200, 600)
+    nsched = ctx.n(50, 150)
     scenarios = []
     sites = simlib.FAIL_SITES
     whens = ["before", "during", "after"]
@@ -104,8 +104,12 @@ def run(ctx):
         # effects are outside M-Sys: replay the scenarios without effect sites
         idx = [i for i in range(len(meta)) if meta[i][2] != "corpus" and "__test_" not in str(scenarios[meta[i][0]]["src"])]
         step = max(1, len(idx) // ctx.n(36, 600))
+        # besides the stride: more runs of the template with tick schedules, and the timed-select corpus traces of
+        # C04 (corpus/sim_c04.txt, (template timed_select)) for the premise checks
+        timed = [i for i in idx if scenarios[meta[i][0]]["name"] == "stale_failure_then_spawn"]
+        pick = sorted(set(idx[::step] + timed[::max(1, len(timed) // ctx.n(12, 150))]))
         sample = [simlib.case_line(scenarios[meta[i][0]]["src"], meta[i][1][0], meta[i][1][1], meta[i][2] if meta[i][2] != "fair" else "")
-                  for i in idx[::step]]
+                  for i in pick] + [l for l in simlib.corpus_lines("sim_c04.txt") if "(template timed_select)" in l]
         simlib.correspondence(ctx, exe, drv, sample, lambda s: basic_problems(s))
     if not ok:
         simlib.theorem_broken(ctx, sum(len(v) for k, v in failures.items() if k[2] is None))
